@@ -64,11 +64,12 @@ Inductive res (A : Type) := Ok (a : A) | Err (e : errkind) | Panic.
 Arguments Ok {A}. Arguments Err {A}. Arguments Panic {A}.
 
 (* observable effects of one controller call, in order *)
-Inductive patch_outcome := POk | PFail | PTimeoutApplied.
+Inductive patch_outcome := POk | PFail | PTimeoutApplied | PTimeoutNotApplied.
 Inductive upd_outcome := UOk | UFail | UAppliedErr.
 Inductive effect :=
 | FxPatch (node : str) (cs : list cidr) (o : patch_outcome)
 | FxEvent (reason : N) (obj : str)               (* 1 CIDRNotAvailable, 2 CIDRAssignmentFailed *)
+| FxGetNode (node : str) (ok : bool)             (* read-back of the node after a timed out write *)
 | FxUpdateCC (o' : ccobj) (outcome : upd_outcome)
 | FxCreateCC (o' : ccobj) (outcome : upd_outcome).
 
@@ -259,8 +260,12 @@ Inductive alloc_state :=
 | ARun (evaluated : N) (m : cidrmap)
 | ADone (m : cidrmap) (r : res cidr).
 
+(* cidrInUseByNode: the candidate overlaps a (parseable) pod CIDR of some node in the node cache
+   (repair of D4); [held] = those pod CIDRs *)
+Definition in_use_by_node (held : list cidr) (x : cidr) : bool := existsb (overlapb x) held.
+
 (* one iteration of `for evaluated := 0; evaluated < MaxCIDRs; evaluated++` *)
-Definition alloc_step (p : path) (f : fam) (st : alloc_state) : alloc_state :=
+Definition alloc_step (held : list cidr) (p : path) (f : fam) (st : alloc_state) : alloc_state :=
   match st with
   | ADone _ _ => st
   | ARun ev m =>
@@ -278,7 +283,7 @@ Definition alloc_step (p : path) (f : fam) (st : alloc_state) : alloc_state :=
                     let c1 := with_pool c f pl' in
                     let m1 := set_entry m p c1 in
                     let ev1 := ev + sk in
-                    if in_allocated_list m1 blk || overlaps_allocated m1 blk then ARun (ev1 + 1) m1
+                    if in_allocated_list m1 blk || overlaps_allocated m1 blk || in_use_by_node held blk then ARun (ev1 + 1) m1
                     else
                       match cc_occupy c1 blk with
                       | Ok c2 => ADone (set_entry m1 p c2) (Ok blk)
@@ -290,18 +295,18 @@ Definition alloc_step (p : path) (f : fam) (st : alloc_state) : alloc_state :=
       end
   end.
 
-Definition allocate_cidr (m : cidrmap) (p : path) (f : fam) : cidrmap * res cidr :=
+Definition allocate_cidr (held : list cidr) (m : cidrmap) (p : path) (f : fam) : cidrmap * res cidr :=
   let fuel := match get_entry m p with
               | Some c => match pool_of c f with Some pl => pmax pl + 1 | None => 1 end
               | None => 1 end in
-  match N.iter fuel (alloc_step p f) (ARun 0 m) with
+  match N.iter fuel (alloc_step held p f) (ARun 0 m) with
   | ADone m' r => (m', r)
   | ARun _ m' => (m', Err EExhausted)    (* unreachable: the loop condition fails within pmax+1 steps *)
   end.
 
 (* ---------- prioritizedCIDRs (817-846), with the release of the IPv4 block when the IPv6 pool is
    exhausted (repair of D7) ---------- *)
-Fixpoint prioritized_try (m : cidrmap) (ps : list path) : cidrmap * res (list cidr * path) :=
+Fixpoint prioritized_try (held : list cidr) (m : cidrmap) (ps : list path) : cidrmap * res (list cidr * path) :=
   match ps with
   | [] => (m, Err ENoAvail)
   | p :: ps' =>
@@ -309,17 +314,17 @@ Fixpoint prioritized_try (m : cidrmap) (ps : list path) : cidrmap * res (list ci
       | None => (m, Panic)
       | Some c =>
           let '(m1, r4) := match cc_v4 c with
-                           | Some _ => let '(m', r) := allocate_cidr m p V4 in (m', match r with Ok x => Ok [x] | Err e => Err e | Panic => Panic end)
+                           | Some _ => let '(m', r) := allocate_cidr held m p V4 in (m', match r with Ok x => Ok [x] | Err e => Err e | Panic => Panic end)
                            | None => (m, Ok [])
                            end in
           match r4 with
           | Panic => (m1, Panic)
-          | Err _ => prioritized_try m1 ps'
+          | Err _ => prioritized_try held m1 ps'
           | Ok c4 =>
               match cc_v6 c with
               | None => (m1, Ok (c4, p))
               | Some _ =>
-                  match allocate_cidr m1 p V6 with
+                  match allocate_cidr held m1 p V6 with
                   | (m2, Ok x6) => (m2, Ok (c4 ++ [x6], p))
                   | (m2, Panic) => (m2, Panic)
                   | (m2, Err _) =>
@@ -328,19 +333,19 @@ Fixpoint prioritized_try (m : cidrmap) (ps : list path) : cidrmap * res (list ci
                                 | [x4], Some c' => match cc_release c' x4 with Ok c'' => set_entry m2 p c'' | _ => m2 end
                                 | _, _ => m2
                                 end in
-                      prioritized_try m3 ps'
+                      prioritized_try held m3 ps'
                   end
               end
           end
       end
   end.
 
-Definition prioritized_cidrs (po : parse_oracle) (lab : label_oracle) (m : cidrmap) (node : nodeobj)
+Definition prioritized_cidrs (po : parse_oracle) (lab : label_oracle) (held : list cidr) (m : cidrmap) (node : nodeobj)
   : cidrmap * res (list cidr * path) :=
   match ordered_matching po lab m (n_labels node) true with
   | Err e => (m, Err e)
   | Panic => (m, Panic)
-  | Ok ps => prioritized_try m ps
+  | Ok ps => prioritized_try held m ps
   end.
 
 (* ---------- updateCIDRsAllocation (730-793) ---------- *)
@@ -383,7 +388,7 @@ Fixpoint patch_loop (canp : bool) (name : str) (cs : list cidr) (outs : list pat
       end
   end.
 
-Definition update_cidrs_allocation (canp : list cidr -> bool) (m : cidrmap) (name : str) (cs : list cidr) (p : path)
+Definition update_cidrs_allocation (canp apisame : list cidr -> bool) (m : cidrmap) (name : str) (cs : list cidr) (p : path)
            (reread : option nodeobj) (outs : list patch_outcome) : cidrmap * res unit * list effect :=
   match reread with
   | None =>
@@ -406,14 +411,38 @@ Definition update_cidrs_allocation (canp : list cidr -> bool) (m : cidrmap) (nam
                  | None => (m, Panic, fx)
                  end
                else
-                 (* IsServerTimeout never holds (PatchNodeCIDRs wraps the error): always release *)
-                 let '(m', r) := release_in m p cs in
-                 (m', match r with Ok _ => Err EPatch | e => e end, fx ++ [FxEvent 2 name])
+                 (* a timed-out attempt may have been applied (repair of D9): the node is read back from the
+                    API server (the 4th scripted outcome; missing = the read succeeds).  It has the CIDRs:
+                    success.  It does not: release as for a clean failure.  The read fails too: the
+                    reservation and the association are kept. *)
+                 let timedout := existsb (fun e => match e with
+                                                   | FxPatch _ _ PTimeoutApplied | FxPatch _ _ PTimeoutNotApplied => true
+                                                   | _ => false end) fx in
+                 let applied := existsb (fun e => match e with FxPatch _ _ PTimeoutApplied => true | _ => false end) fx in
+                 let release_path (fx' : list effect) :=
+                   let '(m', r) := release_in m p cs in
+                   (m', match r with Ok _ => Err EPatch | e => e end, fx' ++ [FxEvent 2 name]) in
+                 if timedout then
+                   match nth_error outs 3 with
+                   | Some PFail =>
+                       match get_entry m p with
+                       | Some c => (set_entry m p (add_assoc name c), Err EPatch, fx ++ [FxGetNode name false; FxEvent 2 name])
+                       | None => (m, Panic, fx)
+                       end
+                   | _ =>
+                       if apisame cs || applied then
+                         match get_entry m p with
+                         | Some c => (set_entry m p (add_assoc name c), Ok tt, fx ++ [FxGetNode name true])
+                         | None => (m, Panic, fx)
+                         end
+                       else release_path (fx ++ [FxGetNode name true])
+                   end
+                 else release_path fx
            end
   end.
 
 (* ---------- AllocateOrOccupyCIDR (625-658) ---------- *)
-Definition allocate_or_occupy (po : parse_oracle) (lab : label_oracle) (canp : list cidr -> bool) (m : cidrmap) (node : nodeobj)
+Definition allocate_or_occupy (po : parse_oracle) (lab : label_oracle) (canp apisame : list cidr -> bool) (held : list cidr) (m : cidrmap) (node : nodeobj)
            (reread : option nodeobj) (outs : list patch_outcome) : cidrmap * res unit * list effect :=
   match n_cidrs node with
   | _ :: _ =>
@@ -423,11 +452,11 @@ Definition allocate_or_occupy (po : parse_oracle) (lab : label_oracle) (canp : l
       | Some _ => let '(m', r) := occupy_cidrs po lab m node in (m', r, [])
       end
   | [] =>
-      match prioritized_cidrs po lab m node with
+      match prioritized_cidrs po lab held m node with
       | (m', Err e) => (m', Err e, [FxEvent 1 (n_name node)])
       | (m', Panic) => (m', Panic, [])
       | (m', Ok ([], _)) => (m', Err ENoAvail, [FxEvent 1 (n_name node)])
-      | (m', Ok (cs, p)) => update_cidrs_allocation canp m' (n_name node) cs p reread outs
+      | (m', Ok (cs, p)) => update_cidrs_allocation canp apisame m' (n_name node) cs p reread outs
       end
   end.
 
@@ -478,13 +507,13 @@ Definition release_cidr (m : cidrmap) (node : nodeobj) : cidrmap * res unit :=
   end.
 
 (* ---------- syncNode (468-490): cached = what nodeLister.Get returned to syncNode ---------- *)
-Definition sync_node (po : parse_oracle) (lab : label_oracle) (canp : list cidr -> bool) (m : cidrmap) (cached : option nodeobj)
+Definition sync_node (po : parse_oracle) (lab : label_oracle) (canp apisame : list cidr -> bool) (held : list cidr) (m : cidrmap) (cached : option nodeobj)
            (reread : option nodeobj) (outs : list patch_outcome) : cidrmap * res unit * list effect :=
   match cached with
   | None => (m, Ok tt, [])
   | Some node =>
       if n_deleting node then let '(m', r) := release_cidr m node in (m', r, [])
-      else allocate_or_occupy po lab canp m node reread outs
+      else allocate_or_occupy po lab canp apisame held m node reread outs
   end.
 
 (* ---------- ClusterCIDR handling (1087-1282) ---------- *)
@@ -527,8 +556,10 @@ Definition need_finalizer (o : ccobj) : bool := negb (o_deleting o) && negb (has
 Definition with_fins (o : ccobj) (f : list str) : ccobj :=
   mkCCObj (o_name o) (o_v4 o) (o_v6 o) (o_hb o) (o_selkey o) f (o_deleting o) (o_gen o) (o_rv o) (o_rest o).
 
-(* createClusterCIDR (1128-1169) *)
-Definition create_cluster_cidr (m : cidrmap) (o : ccobj) (term : bool) (out : upd_outcome)
+(* createClusterCIDR (1128-1169).  At bootstrap the entry is mapped first and the object is always
+   written back; otherwise the finalizer is persisted first and the entry is mapped only when that
+   write succeeded (or was not needed): repair of D6/D6b/D6c. *)
+Definition create_cluster_cidr (m : cidrmap) (o : ccobj) (term bootstrap : bool) (out : upd_outcome)
   : cidrmap * res unit * list effect :=
   match o_selkey o with
   | None => (m, Err ESelector, [])
@@ -540,22 +571,32 @@ Definition create_cluster_cidr (m : cidrmap) (o : ccobj) (term : bool) (out : up
           match cc_v4 c, cc_v6 c with
           | None, None => (m, Err EInvalid, [])
           | _, _ =>
-              (* a retry after a failed write finds the entry of the first attempt and keeps it *)
-              let m1 := if is_mapped m k (o_name o) then m else map_set m k c in
+              (* mapping is idempotent per name under the selector *)
+              let mapped := if is_mapped m k (o_name o) then m else map_set m k c in
               let o' := if need_finalizer o then with_fins o (o_fins o ++ [finalizer]) else o in
               let fx := if o_rv o =? 0 then FxCreateCC o' out else FxUpdateCC o' out in
-              (m1, match out with UOk => Ok tt | _ => Err EUpdate end, [fx])
+              if bootstrap then
+                (mapped, match out with UOk => Ok tt | _ => Err EUpdate end, [fx])
+              else if need_finalizer o then
+                match out with
+                | UOk => (mapped, Ok tt, [fx])
+                | _ => (m, Err EUpdate, [fx])
+                end
+              else (mapped, Ok tt, [])
           end
       end
   end.
 
+Definition is_mapped_obj (m : cidrmap) (o : ccobj) : bool :=
+  match o_selkey o with Some k => is_mapped m k (o_name o) | None => false end.
+
 Definition reconcile_create (m : cidrmap) (o : ccobj) (out : upd_outcome) : cidrmap * res unit * list effect :=
-  if need_finalizer o then create_cluster_cidr m o false out else (m, Ok tt, []).
+  if need_finalizer o || negb (is_mapped_obj m o) then create_cluster_cidr m o false false out else (m, Ok tt, []).
 
 (* reconcileBootstrap (1105-1125); an object that is being deleted is mapped as terminating
    (repair of D12) *)
 Definition reconcile_bootstrap (m : cidrmap) (o : ccobj) (out : upd_outcome) : cidrmap * res unit * list effect :=
-  create_cluster_cidr m o ((1 <? o_gen o) || o_deleting o) out.
+  create_cluster_cidr m o ((1 <? o_gen o) || o_deleting o) true out.
 
 (* deleteClusterCIDR (1244-1282) *)
 Fixpoint find_name (name : str) (l : list ccset) (i : nat) : option (nat * ccset) :=
